@@ -4,6 +4,7 @@
 -/
 import Lean.Data.Json
 import TypedpyModel.Core.Field
+import TypedpyModel.Core.Formats
 namespace Typedpy.Wire
 open Lean (Json)
 open Typedpy
@@ -124,7 +125,19 @@ partial def declOfJson (j : Json) : Except String FieldDecl := do
   | "number" => pure (.number (← numOpts j))
   | "integer" => pure (.integer (← numOpts j))
   | "float" => pure (.float (← numOpts j))
-  | "string" => pure (.string (← optNat j "minLength") (← optNat j "maxLength") (← optStr j "pattern"))
+  | "string" => do
+    -- extension string fields travel as `string` declarations: SizedString's "maxlen" is one more upper bound on the
+    -- length (the tighter of maxLength / maxlen decides; both failures are ValueError), a formatted string's "fmt"
+    -- takes the pattern slot as the synthetic token "§fmt:<fmt>" (answered by `fmtMatch` / the per-case table)
+    let hi ← optNat j "maxLength"
+    let hi := match hi, ← optNat j "maxlen" with
+      | some a, some b => some (min a b)
+      | none, some b => some b
+      | a, none => a
+    let pat ← match ← optStr j "fmt" with
+      | some f => pure (some ("§fmt:" ++ f))
+      | none => optStr j "pattern"
+    pure (.string (← optNat j "minLength") hi pat)
   | "boolean" => pure .boolean
   | "enumLit" => do
     pure (.enumLit (← (← (← j.getObjVal? "values").getArr?).toList.mapM valOfJson))
@@ -183,10 +196,28 @@ def oraclesOfJson (j : Json) : Except String Oracles := do
     | some x => (← x.getArr?).toList.mapM fun t => do
       let a ← t.getArr?
       pure ((← a[0]!.getStr?), (← valOfJson a[1]!))
-  pure { reMatch := fun p s => match table.find? (fun t => t.1 == p && t.2.1 == s) with
-                                | some t => t.2.2 | none => false,
-         hookOk := fun st => hooks.all fun h => match lookup h.1 st with
-                                | some x => !PyVal.pyEq x h.2 | none => true }
+  -- "reOverride": answers that take precedence over everything else (the harness lists here the strings on which the
+  -- library's formatted-string field is known to deviate from the documented language, with the LIBRARY's verdict, so
+  -- that the rest of the case is still compared in full; the deviation itself is reported as a finding)
+  let over : List (String × String × Bool) ← match optField j "reOverride" with
+    | none => pure []
+    | some x => (← x.getArr?).toList.mapM fun t => do
+      let a ← t.getArr?
+      pure ((← a[0]!.getStr?), (← a[1]!.getStr?), (← a[2]!.getBool?))
+  -- a second family of hooks (optional key "hookNeed"): the hook raises unless, for every listed
+  -- group of fields, at least one field of the group holds a value (is set and not None)
+  let needs : List (List String) ← match optField j "hookNeed" with
+    | none => pure []
+    | some x => (← x.getArr?).toList.mapM fun g => do
+      (← g.getArr?).toList.mapM fun n => n.getStr?
+  pure { reMatch := fun p s => match over.find? (fun t => t.1 == p && t.2.1 == s) with
+            | some t => t.2.2
+            | none => fmtMatch (fun p s => match table.find? (fun t => t.1 == p && t.2.1 == s) with
+                                | some t => t.2.2 | none => false) p s,
+         hookOk := fun st => (hooks.all fun h => match lookup h.1 st with
+                                | some x => !PyVal.pyEq x h.2 | none => true)
+                             && (needs.all fun g => g.any fun n => match lookup n st with
+                                | some x => !x.isNone | none => false) }
 
 def kwOfJson (j : Json) : Except String (List (String × PyVal)) := do
   (← j.getArr?).toList.mapM fun kv => do
